@@ -268,19 +268,19 @@ def run(prog: Program, chk: Check):
 
     for f in mm.methods.values():
         for c in calls_in(f.node):
-            if not (self_call("forward_message")(c) or self_call("send_to_loggers")(c) or (is_method_call(c, "send_message") and ty.expr(f, recv_of(c)).is_cls("Module"))):
+            if not (self_call("forward_message")(c) or self_call("send_to_loggers")(c) or self_call("send_message")(c) or (is_method_call(c, "send_message") and ty.expr(f, recv_of(c)).is_cls("Module"))):
                 continue
             for a in c.args:
                 pth = path_of(a)
                 if pth is None:
                     continue
                 shared = None
-                if pth.startswith("self.") and pth not in ("self.mm_module", "self.header") and ty.expr(f, a).kind == "cls" and not ty.expr(f, a).is_cls("Module"):
+                if pth.startswith("self.") and pth not in ("self.mm_module", "self.header") and not ty.expr(f, a).is_cls("Module") and ty.expr(f, a).kind in ("cls", "unknown"):
                     shared = pth
                 elif "." not in pth and not any(k == "param" for k, _ in _defs(f.node, pth)):
                     for k, r in _defs(f.node, pth):
                         rp = path_of(r) if isinstance(r, (ast.Attribute, ast.Name)) else None
-                        if rp and rp.startswith("self.") and rp not in ("self.header", "self.mm_module") and ty.expr(f, r).kind == "cls" and not ty.expr(f, r).is_cls("Module"):
+                        if rp and rp.startswith("self.") and rp not in ("self.header", "self.mm_module") and not ty.expr(f, r).is_cls("Module") and ty.expr(f, r).kind in ("cls", "unknown"):
                             shared = rp
                 D.decide(shared is None, fkey(f, f"fresh:{norm(c)[:50]}:{pth}"), where(f, c), f"`{pth}` is a per-call object",
                          f"{f.qual} sends the shared object `{shared}`: the nested CLIENT_CLOSED / FAILED_MESSAGE / log record published while a failure is handled overwrites the frame still being delivered to the remaining subscribers")
